@@ -252,31 +252,74 @@ impl Cnt {
 // ------------------------------------------------------------------------------------------
 // LocalWaker
 // ------------------------------------------------------------------------------------------
+/// A re-entrant waker: wraps counting waker `id`; when its last clone is dropped it calls `wake()` on the LocalWaker it
+/// is used with (a parked task that owns a guard of the gate it is parked on).
+struct ReW {
+    inner: std::task::Waker,
+    lw: std::rc::Rc<LocalWaker>,
+}
+impl Drop for ReW {
+    fn drop(&mut self) {
+        self.lw.wake();
+    }
+}
+mod rew {
+    use super::ReW;
+    use std::{rc::Rc, task::{RawWaker, RawWakerVTable, Waker}};
+    static VT: RawWakerVTable = RawWakerVTable::new(clone, wake, wake_by_ref, drop_w);
+    unsafe fn clone(p: *const ()) -> RawWaker {
+        Rc::increment_strong_count(p as *const ReW);
+        RawWaker::new(p, &VT)
+    }
+    unsafe fn wake(p: *const ()) {
+        let r = Rc::from_raw(p as *const ReW);
+        r.inner.wake_by_ref();
+        drop(r);
+    }
+    unsafe fn wake_by_ref(p: *const ()) {
+        (*(p as *const ReW)).inner.wake_by_ref();
+    }
+    unsafe fn drop_w(p: *const ()) {
+        drop(Rc::from_raw(p as *const ReW));
+    }
+    /// single-threaded use only (LocalWaker is !Send anyway)
+    pub fn waker(r: Rc<ReW>) -> Waker {
+        unsafe { Waker::from_raw(RawWaker::new(Rc::into_raw(r) as *const (), &VT)) }
+    }
+}
+
 struct Lw {
-    lw: LocalWaker,
+    lw: std::rc::Rc<LocalWaker>,
     wakers: Wakers,
     taken: Vec<std::task::Waker>,
+    /// data pointers of the re-entrant wakers handed out, by waker id (identity for `take`)
+    re_ptrs: Vec<(usize, *const ())>,
 }
 
 impl Lw {
     fn new() -> Self {
         Lw {
-            lw: LocalWaker::new(),
+            lw: std::rc::Rc::new(LocalWaker::new()),
             wakers: Wakers::new(2),
             taken: vec![],
+            re_ptrs: vec![],
         }
     }
-    fn step(&mut self, op: &str, w: i64) -> Value {
+    fn step(&mut self, op: &str, w: i64, re: bool) -> Value {
         let before = self.wakers.counts();
         let mut res = String::new();
         let mut val = 0i64;
         let r = catch(|| match op {
             "register" => {
-                res = if self.lw.register(&self.wakers.waker(w as usize)) {
-                    "true".into()
+                let waker = if re {
+                    let wk = rew::waker(std::rc::Rc::new(ReW { inner: self.wakers.waker(w as usize), lw: self.lw.clone() }));
+                    self.re_ptrs.push((w as usize, wk.data()));
+                    wk
                 } else {
-                    "false".into()
+                    self.wakers.waker(w as usize)
                 };
+                res = if self.lw.register(&waker) { "true".into() } else { "false".into() };
+                // our own handle goes away here: the LocalWaker holds the only clone
             }
             "wake" => self.lw.wake(),
             "take" => match self.lw.take() {
@@ -286,6 +329,9 @@ impl Lw {
                         if wk.will_wake(&self.wakers.waker(id)) {
                             val = id as i64;
                         }
+                    }
+                    if let Some((id, _)) = self.re_ptrs.iter().rev().find(|(_, p)| *p == wk.data()) {
+                        val = *id as i64;
                     }
                     res = "some".into();
                     self.taken.push(wk);
@@ -297,7 +343,15 @@ impl Lw {
         if let Err(msg) = r {
             res = format!("panic: {msg}");
         }
-        json!({"ev": op, "w": w, "res": res, "val": val, "woken": self.wakers.woken_since(&before)})
+        json!({"ev": op, "w": w, "re": re, "res": res, "val": val, "woken": self.wakers.woken_since(&before)})
+    }
+}
+
+impl Drop for Lw {
+    fn drop(&mut self) {
+        // wakers taken out are dropped while the LocalWaker is still alive
+        self.taken.clear();
+        let _ = self.lw.take();
     }
 }
 
@@ -405,7 +459,7 @@ fn main() {
                 trace.emit(&json!({"ev": "reset", "run": run}));
                 let mut bad = false;
                 for (k, exp) in sch.as_array().unwrap().iter().enumerate() {
-                    let mut obs = c.step(gets(exp, "op"), geti(exp, "w"));
+                    let mut obs = c.step(gets(exp, "op"), geti(exp, "w"), exp.get("re").and_then(|x| x.as_bool()).unwrap_or(false));
                     obs["run"] = json!(run);
                     trace.emit(&obs);
                     steps += 1;
